@@ -3,7 +3,7 @@
 A_FP = "A-FP: IEEE floats treated as mathematical reals; no NaN/inf; ndarray division by zero is an unspecified real"
 A_LIB = "A-LIB: library contracts of DESIGN 2.2 (each one used is listed in trusted_base as library-contract: ...)"
 A_SOLVE = "A-SOLVE: cvxpy / scipy SLSQP return the exact optimum or feasibility verdict of the convex program they are given"
-A_ENGINE = "PYVC engine (ast -> z3 VC generator, loop summaries, product abstraction) is trusted; exercised by mutation self-tests and engine/CPython agreement runs"
+A_ENGINE = "PYVC engine (ast -> z3 VC generator, loop summaries, product abstraction) is trusted; exercised by the seeded-change runs (tools/run_seeds.py over seeded/*/patch.diff) and by engine/CPython agreement runs on failing paths (every replay) and on passing paths (thorough tier)"
 
 PROPS = {}
 CLAIMED = set()
@@ -157,5 +157,44 @@ prop("C01",
      mode="lemma; sets, regions, predicate answers, true means arbitrary; arithmetic lemmas for (m,K) in {(2,2),(3,3),(2,3)}",
      trusted_base=["z3 5.1.0", "induction over rounds (schema)", "axiom finite_argmax (one instance)", "axiom rank (H-nondeg, cone with interior)",
                    "H-valid and termination (hypotheses of the property)"],
-     not_decided=["H-valid itself (C04) and termination", "Auer's instance of the lemma (its step contracts are proved in C02/C03; the run-level lemma is not written)",
+     not_decided=["H-valid itself (C04) and termination", "Auer's instance of the lemma (its step contracts are proved in C02/C03; the run-level lemma is not written, so Auer's step obligations are NOT among this check's dependencies)",
                   "identical zero-width regions (excluded by H-nondeg)"])
+
+
+# ----------------------------------------------------------------------------------------------
+# Dependencies: obligations of OTHER properties' tasks that a property's lemma / contracts consume.  The check of the
+# property discharges them too (under their own obligation names), so a change to a function the property relies on fails
+# the property's own check.  (task-name regex, clause regex); the clause regex selects exactly what is consumed: e.g. the
+# C01 / C05 lemmas use only the soundness direction of the step contracts ("safe/", "mono/") and of the region predicates.
+# ----------------------------------------------------------------------------------------------
+_PAV = r"(PaVeBa|PaVeBaGP|PaVeBaPartialGP)"
+_DOM_SOUND = r"^sound/|^result_is_forall_facets|^a_problem_is_solved"
+_COV_COMPLETE = r"^complete/|^result_is_feasibility|^a_problem_is_solved"
+DEPENDS = {
+    "C01": [(r"C02/%s\.discarding$" % _PAV, r"^(safe|mono)/"),
+            (r"C03/%s\.(pareto_updating|useful_updating)$" % _PAV, r"^(safe|mono)/"),
+            (r"C09/(Rect|Ell)\.is_dominated\[", _DOM_SOUND), (r"C09/lemma\.box_extreme", r"."),
+            (r"C10/(Rect|Ell)\.is_covered\[", _COV_COMPLETE),
+            (r"C17/get_alpha", r".")],
+    "C05": [(r"C02/(VOGP|EpsilonPAL)\.(discarding|compute_pessimistic_set)$", r"^(safe|mono)/"),
+            (r"C03/(VOGP|EpsilonPAL)\.epsiloncovering$", r"^(safe|mono)/"),
+            (r"C09/(Rect|Ell)\.is_dominated\[", _DOM_SOUND), (r"C09/lemma\.box_extreme", r"."),
+            (r"C10/(Rect|Ell)\.is_covered\[", _COV_COMPLETE),
+            (r"C17/VOGP\.compute_u_star", r".")],
+    # "exactly when the displayed regions certify it": the geometric meaning of the certificate predicates
+    "C02": [(r"C09/", r"."), (r"C11/", r".")],
+    "C03": [(r"C10/", r".")],
+    # the region built from the scaling: scale x predictive std / scale-radius ellipsoid
+    "C04": [(r"C14/(Rect|Ell)\.update\[", r".")],
+    # step composition uses the phases' monotonicity and exception-freedom
+    "C06": [(r"C0[23]/", r"^mono/|^no-raise|^implicit")],
+    # which designs are sampled and what reaches the model: the evaluating() bodies
+    "C07": [(r"C06/.*\.(evaluating|evaluate_refine)$", r".")],
+    "C08": [(r"C17/ConeTheta2D\.beta", r"."), (r"C13/get_pareto_set\[", r"."), (r"C12/dominates\[", r".")],
+    "C13": [(r"C12/(dominates|is_inside)", r".")],
+    "C14": [(r"C15/.*\.predict\[", r".")],
+    "C18": [(r"C03/VOGP_AD\.epsiloncovering$", r"."), (r"C06/VOGP_AD\.evaluate_refine$", r".")],
+    "C19": [(r"C17/get_alpha", r".")],
+}
+for _p, _d in DEPENDS.items():
+    PROPS[_p]["depends"] = _d
